@@ -12,7 +12,7 @@ def cfgs_for(family, tier):
     base = dict(cache='off', cache_indexes=True, fsync=False, confirmation='wait')
     def c(thr, seg, **kw):
         d = dict(base); d.update(save_threshold=thr, segment_bytes=seg * MSG); d.update(kw); return d
-    if family in ('layout', 'dedup', 'offsets', 'grpoffsets'):
+    if family in ('layout', 'layout_enc', 'dedup', 'offsets', 'grpoffsets'):
         m = [c(1000, 0), c(2, 0), c(1, 2), c(3, 4, cache_indexes=False), c(2, 3, cache='large'),
              c(1000, 2, fsync=True), c(1, 0, cache='large', cache_indexes=False), c(3, 2)]
         if tier == 'thorough':
@@ -33,6 +33,7 @@ GEN = {
                                MaxNow=0, ExpirySet='{0}', Threshold=2, SegCap=4,
                                Ops='{"append","flush","bg_save","restart","purge"}'),
                    parts=1, whos=['c1'], expiry=0),
+    'layout_enc': None,
     'retention': dict(consts=dict(NParts=1, KeySet='{"c1"}', GroupKeys='{}', DedupOn='FALSE', IdSet='{0}', MaxLen=6, MaxBatch=2,
                                   MaxNow=3, ExpirySet='{0,1,3}', Threshold=1, SegCap=2,
                                   Ops='{"append","restart","tick","set_expiry","retention"}'),
@@ -52,6 +53,7 @@ GEN = {
                     parts=2, whos=['c1', 'c2', 'g1', 'h1', 'nfoo'], expiry=0),
 }
 
+GEN['layout_enc'] = dict(GEN['layout'], encryption=True)
 MC_INV = ['TypeOK', 'DedupOnce', 'AllSlicesShaped', 'SegsCoverLog']
 MC_PROPS = ['LogGrows', 'LoMoves', 'StoredIsolated']
 
@@ -60,7 +62,7 @@ def mc_family(family, tier, wd):
     """Exhaustive TLC run of the bounded instance of `family` (bigger constants in the thorough tier)."""
     g = GEN[family]
     consts = dict(g['consts'])
-    consts['MaxOps'] = {'layout': 7, 'retention': 8, 'dedup': 5, 'offsets': 5, 'grpoffsets': 6}[family] + (2 if tier == 'thorough' else 0)
+    consts['MaxOps'] = {'layout': 7, 'retention': 8, 'dedup': 5, 'offsets': 5, 'grpoffsets': 6, 'layout_enc': 7}[family] + (2 if tier == 'thorough' else 0)
     if tier == 'thorough':
         consts['MaxLen'] = consts['MaxLen'] + 2
     cfg = os.path.join(wd, f'MC_{family}.cfg')
@@ -76,7 +78,7 @@ def gen_scripts(family, tier, wd, seed, rnd):
     """TLC-generated input scripts: exhaustive path cover to a small depth plus simulated random walks."""
     g = GEN[family]
     out = []
-    depth = {'layout': 4, 'retention': 5, 'dedup': 3, 'offsets': 3, 'grpoffsets': 4}[family] + (1 if tier == 'thorough' else 0)
+    depth = {'layout': 4, 'retention': 5, 'dedup': 3, 'offsets': 3, 'grpoffsets': 4, 'layout_enc': 4}[family] + (1 if tier == 'thorough' else 0)
     consts = dict(g['consts']); consts['MaxOps'] = depth
     if family == 'dedup' and tier == 'quick':
         consts['MaxBatch'] = 2     # 3 ids x batches <= 3 gives 39 sends per step; the walks below keep batches of 3
@@ -100,6 +102,7 @@ def gen_scripts(family, tier, wd, seed, rnd):
 def to_scenario(sid, family, script, cfg, seed):
     g = GEN[family]
     cfg = dict(cfg)
+    cfg['encryption'] = bool(g.get('encryption'))
     cfg['dedup'] = bool(g.get('dedup')) and (seed % 7 != 0)   # every 7th dedup scenario is the "deduplication off" control
     steps = []
     expiry = g['expiry']
@@ -173,6 +176,8 @@ def build_scenarios(families, tier, wd, seed):
         gen_stats[fam] = dict(path_cover_scripts=len(paths), simulated_walks=len(walks), configs=len(cfgs))
         per = 2 if tier == 'quick' else 4
         for s in paths + walks:
+            if fam == 'layout_enc' and rnd.random() < 0.35 and any(o['op'] == 'append' for o in s):
+                s = s + [dict(op='restart', mode='graceful', key='B')]
             if fam == 'offsets':
                 s = rename_whos(s, rnd)
             for cfg in rnd.sample(cfgs, min(per, len(cfgs))):
@@ -210,6 +215,7 @@ LABELS = {
     'C14': ('C14.',),
     'C16': ('C16.',),
     'C18': ('C18.',),
+    'C19': ('C19.', 'C01.', 'C02.', 'C16.'),
 }
 FAMILIES = {
     'C01': ['layout', 'retention', 'dedup'],
@@ -218,6 +224,7 @@ FAMILIES = {
     'C07': ['offsets', 'grpoffsets'],
     'C14': ['retention'],
     'C18': ['dedup'],
+    'C19': ['layout_enc'],
 }
 
 
@@ -287,6 +294,8 @@ def nontrivial(prop, scn, trace_events):
                 if b and [s['start'] for s in b[0]] != [s['start'] for s in trace_events[k - 1]['post'][0]['segs']]:
                     return True
         return False
+    if prop == 'C19':
+        return any(e['ev'] in ('restart', 'restart_wrong_key') for e in trace_events) or any(len(pp['segs']) >= 2 for e in trace_events for pp in e.get('post', []))
     if prop == 'C18':
         seen = set()
         for s in scn['steps']:
@@ -305,6 +314,7 @@ RULES = {
     'C07': 'store/poll_next steps by >= 2 different identities',
     'C14': 'a retention pass that changed the segment list',
     'C18': 'a message id repeated within the scenario',
+    'C19': 'encrypted scenario with messages stored in >= 2 segments or restarted (also with a different key)',
 }
 ASSUMPTIONS = ['segment layout, cache window and server-assigned ids/timestamps are read off the recorded projection '
                '(implementation freedom), everything else is predicted by the specification',
